@@ -194,15 +194,27 @@ func TestC17(t *testing.T) {
 			tr.Emit(vt.Event{"ev": "case", "case": id, "in": c, "kf": "", "steps": c17Budget(c)})
 			return
 		}
+		if vt.Str(c["kind"]) == "conc" {
+			ev := c17Conc(c)
+			ev["ev"], ev["case"], ev["in"], ev["kf"] = "case", id, c, ""
+			tr.Emit(ev)
+			return
+		}
 		tr.Emit(vt.Event{"ev": "case", "case": id, "in": c, "kf": "", "steps": []any{}})
 		cid := id
 		c17Shard(c, func(ev string, buf, pool int) { tr.Emit(vt.Event{"ev": ev, "case": cid, "buf": buf, "pool": pool}) })
 		tr.Emit(vt.Event{"ev": "End", "case": cid})
 	}
 	if rc := vt.Replay(t); rc != nil {
+		if vt.Str(rc["kind"]) == "conc" {
+			_, undo := pinToOneCPU()
+			defer undo()
+		}
 		run(rc)
 		return
 	}
+	// concurrent Get/Put near the budget first (pinned to one cpu; the pin is undone afterwards)
+	c17ConcAll(rnd, run)
 	for _, c := range vt.TLCCases(t) {
 		c["sseed"] = rnd.Int63n(1 << 40)
 		run(c)
